@@ -1038,6 +1038,13 @@ theorem C08_private_kw_dropped_witness :
     call W₁ sPrivKw {} [] [(1000, 7)] = .body ⟨[1], [], [], []⟩ ∧
     KnownDefect.privateKw W₁ sPrivKw [(1000, 7)] = true := by decide
 
+/-- … and where unknown keys are refused (`Options(no_data_loss=True)` / `addition=False`, no `**kwargs`) the same
+keyword is refused with an ExceedError instead of being ignored: the call Python binds does not reach the body -/
+theorem C08_private_kw_refused_witness :
+    Spec.expected W₁ sPrivKw [] [(1000, 7)] = some (.body ⟨[7], [], [], []⟩) ∧
+    call W₁ sPrivKw { noDataLoss := true } [] [(1000, 7)] = .perr ∧
+    call W₁ sPrivKw { addition := some false } [] [(1000, 7)] = .perr := by decide
+
 /-- `def f(_x: int)`: the property wants `f(7)` converted (`107` in this world); the body gets the raw `7` -/
 def sPrivAnn : Sig Nat Nat Nat := { pos := [{ name := 1000, ann := some 0 }] }
 
